@@ -82,8 +82,7 @@ Proof.
 Qed.
 
 (* ------------------------------------------- printed spellings are one token *)
-Definition hexdigit (c : cp) : Prop := exists d, (0 <= d < 16)%Z /\ c = digit_char d.
-Definition numch (c : cp) : Prop := c = 47 \/ hexdigit c.
+Definition numch (c : cp) : Prop := c = 47 \/ c = 46 \/ hexdigit c.
 
 Lemma hexdigit_classes c : hexdigit c ->
   is_subsequent_number c = true /\ is_subsequent_identifier c = true.
@@ -100,7 +99,7 @@ Qed.
 Lemma numch_classes c : numch c ->
   is_subsequent_number c = true /\ is_subsequent_identifier c = true /\ (c =? 59) = false.
 Proof.
-  intros [->|H]. repeat split.
+  intros [->|[->|H]]. repeat split. repeat split.
   destruct (hexdigit_classes c H) as (A & B). repeat split; try assumption.
   destruct H as (d & Hd & ->). pose proof (digit_char_range d ltac:(lia)) as R. cbv zeta in R.
   apply N.eqb_neq. lia.
@@ -148,18 +147,6 @@ Proof.
 Qed.
 
 (* the shape of the text of an exact number in radix 2, 8, 10 or 16 *)
-Lemma show_nat_radix_hex r n : (2 <= r <= 16)%Z -> (0 <= n)%Z ->
-  exists c l, show_nat_radix r n = c :: l /\ hexdigit c /\ Forall hexdigit l.
-Proof.
-  intros Hr Hn. unfold show_nat_radix.
-  destruct (to_digits_spec r n) as (_ & Hok & Hne & _); [lia|lia|].
-  destruct (to_digits r n) as [|d l]; [congruence|].
-  inversion Hok; subst. exists (digit_char d), (map digit_char l). split; [reflexivity|].
-  split. exists d. split; [lia|reflexivity].
-  apply Forall_map. eapply Forall_impl; [|eassumption]. intros x Hx. cbv beta in Hx.
-  exists x. split; [lia|reflexivity].
-Qed.
-
 Lemma show_int_radix_shape r z : (2 <= r <= 16)%Z ->
   exists c l, show_int_radix r z = c :: l /\ (c = 45 \/ hexdigit c) /\ Forall hexdigit l.
 Proof.
@@ -177,7 +164,7 @@ Lemma exact_text_shape r n : is_prefix_radix r -> exact_wf n ->
 Proof.
   intros Hr Hwf. assert (Hr16 : (2 <= r <= 16)%Z) by (unfold is_prefix_radix in Hr; cbn in Hr; lia).
   assert (Hh : forall l, Forall hexdigit l -> Forall numch l)
-    by (intros l; apply Forall_impl; intros a Ha; now right).
+    by (intros l; apply Forall_impl; intros a Ha; right; now right).
   destruct n as [z|z|a b|f]; cbn [exact_text exact_wf] in *.
   - destruct (show_int_radix_shape r z Hr16) as (c & l & -> & Hc & Hl). exists c, l. auto.
   - destruct (show_int_radix_shape r z Hr16) as (c & l & -> & Hc & Hl). exists c, l. auto.
@@ -188,7 +175,7 @@ Proof.
       rewrite (show_int_radix_pos r b) by lia.
       destruct (show_nat_radix_hex r b Hr16 ltac:(lia)) as (c2 & l2 & -> & Hc2 & Hl2).
       exists c, (l ++ [47] ++ c2 :: l2). split; [reflexivity|]. split; [assumption|].
-      apply Forall_app. split; [auto|]. constructor; [now left|]. constructor; [now right|auto].
+      apply Forall_app. split; [auto|]. constructor; [now left|]. constructor; [right; now right|auto].
   - contradiction.
 Qed.
 
